@@ -248,4 +248,27 @@ theorem inv_step {s s' : State} {t : Nat} {op : Op} (hI : Inv s) (h : step s t o
     case step.nfree => exact inv_step_nfree hI hth h
     all_goals (simp [step, hth] at h)
 
+/-- states reachable from `init n` by any schedule of any client operations -/
+inductive Reachable (n : Nat) : State → Prop where
+  | init : Reachable n (init n)
+  | step {s s' : State} (t : Nat) (op : Op) : Reachable n s → step s t op = some s' → Reachable n s'
+
+theorem inv_of_reachable {n : Nat} {s : State} (h : Reachable n s) : Inv s := by
+  induction h with
+  | init => exact inv_init n
+  | step t op _ hs ih => exact inv_step ih hs
+
+theorem reachable_exec {n : Nat} {s s' : State} (h : Reachable n s) (acts : List (Nat × Op))
+    (he : exec s acts = some s') : Reachable n s' := by
+  induction acts generalizing s with
+  | nil => simp [exec] at he; subst he; exact h
+  | cons a as ih =>
+    obtain ⟨t, op⟩ := a
+    simp only [exec] at he
+    cases hs : step s t op with
+    | none => simp [hs] at he
+    | some s1 =>
+      simp only [hs] at he
+      exact ih (Reachable.step t op h hs) he
+
 end AranyaV.BiArc
